@@ -16,7 +16,7 @@
        WSkipExec i    ... failed because of the cancel flag
        WExecStart i   the executor's Run is entered (visible RunStart; n.cmd exists from here on)
        WDryExec i     dry run: execNode returns nil at once (:281-286)
-       WExecRefused i after the deadline the executor refuses to start (expired context)
+       WExecRefused i after the deadline the executor refuses to start (expired context); WExecStart needs the deadline not passed
        WExecEnd i ok  Run returns (environment chooses ok)
        WAfter i early the error switch (:161-193), doneCount (:195), repeat test (:198), done channel (:206);
                       early = the status read at :162 preceded a Signal that has flipped the node since
@@ -27,7 +27,7 @@
                       falls through to :213 and flips a *relaunched* running node to finished
      Signal (:291-312, node.go:244-259)
        SigFlag        cancel flag set; the per-node pass is queued
-       SigNode        next node of the pass: repeat steps skipped, running -> canceled
+       SigNode k      next node of the pass: repeat steps skipped, running -> canceled; k = Kill forwarded to the executor
      Timeout          the DAG deadline passes (isTimeout becomes true, contexts expire)
      after wg.Wait() (:228-258)
        HBegin         handlers chosen from Status(g)
@@ -77,7 +77,7 @@ Inductive label :=
 | WSetupFail (i : nat) | WTest (i : nat) | WSkipExec (i : nat) | WExecStart (i : nat) | WDryExec (i : nat)
 | WExecRefused (i : nat) | WExecEnd (i : nat) (ok : bool) | WAfter (i : nat) (early : bool)
 | WRetryWake (i : nat) | WRepeatWake (i : nat) | WFinish (i : nat) | WStaleFinish (i : nat)
-| SigFlag | SigNode | Timeout
+| SigFlag | SigNode (k : bool) | Timeout
 | HBegin | HStart (h : handler) | HEnd (h : handler) (ok : bool) | HSkip (h : handler) | HRefused (h : handler) | HFinish.
 
 Definition nstatus_eqb (a b : nstatus) : bool :=
@@ -229,7 +229,7 @@ Definition step (s : state) (l : label) : option state :=
       | _ => None end
   | WExecStart i =>
       match ph (nd s i) with
-      | PStarting => if (i <? n) && negb (dry c)
+      | PStarting => if (i <? n) && negb (dry c) && negb (timedout s)
                      then Some (set_nd s i {| st := st (nd s i); rc := rc (nd s i); dc := dc (nd s i);
                                               att := S (att (nd s i)); ph := PExec; stale := stale (nd s i);
                                               outs := outs (nd s i) |}) else None
@@ -286,16 +286,22 @@ Definition step (s : state) (l : label) : option state :=
       | S k => Some {| nd := nd s; canceled := true; lasterr := lasterr s; timedout := timedout s; pc := pc s;
                        sigq := sigq s ++ seq 0 n; sigleft := k; hst := hst s |}
       | O => None end
-  | SigNode =>
+  | SigNode k =>
+      (* k: the signal was forwarded to the node's executor (Kill called).  n.cmd exists once an attempt has run
+         (it is never reset, so a later Signal reaches the executor of the latest attempt, finished or not); while
+         the worker is between its cancel test and Run (PStarting) it may or may not exist yet. *)
       match sigq s with
       | [] => None
       | i :: q =>
           let s' := {| nd := nd s; canceled := canceled s; lasterr := lasterr s; timedout := timedout s;
                        pc := pc s; sigq := q; sigleft := sigleft s; hst := hst s |} in
-          if repeat (steps c i) then Some s' else
+          if repeat (steps c i) then (if k then None else Some s') else
           match st (nd s i) with
-          | NRunning => Some (set_nd s' i (with_st (nd s i) NCancel))
-          | _ => Some s'
+          | NRunning =>
+              if (if k then (0 <? att (nd s i)) || (match ph (nd s i) with PStarting => true | _ => false end)
+                  else negb (0 <? att (nd s i)))
+              then Some (set_nd s' i (with_st (nd s i) NCancel)) else None
+          | _ => if k then None else Some s'
           end
       end
   | Timeout =>
@@ -309,7 +315,7 @@ Definition step (s : state) (l : label) : option state :=
   | HStart h =>
       match pc s with
       | LHandlers (h' :: t) false =>
-          if handler_eqb h h' && negb (dry c)
+          if handler_eqb h h' && negb (dry c) && negb (timedout s)
           then Some (set_pc (set_hst s h {| hs := NRunning; hatt := S (hatt (hst s h)) |}) (LHandlers (h' :: t) true))
           else None
       | _ => None end
@@ -364,3 +370,9 @@ Definition dflt_step : stepdef :=
 Definition mkcfg (l : list stepdef) (k : nat) (isdry isdone : bool) : cfg :=
   {| nsteps := length l; steps := fun i => nth i l dflt_step; maxActive := k; dry := isdry; donech := isdone;
      sigs := 0; tmo := false; hon := fun _ => false |}.
+
+(* full form: Signal budget, timeout, configured handlers *)
+Definition mkcfgx (l : list stepdef) (k : nat) (isdry isdone : bool) (nsig : nat) (hastmo : bool)
+  (h : handler -> bool) : cfg :=
+  {| nsteps := length l; steps := fun i => nth i l dflt_step; maxActive := k; dry := isdry; donech := isdone;
+     sigs := nsig; tmo := hastmo; hon := h |}.
